@@ -385,11 +385,94 @@ fn scenario_takeover(bound: usize, tally: &'static StdMutex<Tally>) {
     });
 }
 
+/// scenario 4: the slave port's master has fallen silent; the BMCA run in which its records leave
+/// the window makes the instance grandmaster again (parentDS, currentDS and timePropertiesDS all
+/// change in that one update).  An observer that reads parentDS first and timePropertiesDS second
+/// can see (old, old), (old, new) or (new, new) but never (new, old); one that reads in the other
+/// order never sees (new timeProperties, old parent).
+fn scenario_regain(bound: usize, tally: &'static StdMutex<Tally>) {
+    let mut b = loom::model::Builder::new();
+    b.preemption_bound = Some(bound);
+    b.check(move || {
+      spawn_big(move || {
+        let [x0, _, _] = contents();
+        let run_bmca = |inst: &'static Inst, a: RPort, bport: RPort| -> (RPort, RPort) {
+            let mut ab = a.start_bmca();
+            let mut bb = bport.start_bmca();
+            inst.bmca(&mut [&mut ab, &mut bb]);
+            (ab.end_bmca().0, bb.end_bmca().0)
+        };
+        // how many BMCA runs without an Announce until the instance is its own grandmaster again?
+        let k = {
+            let mut parent = x0.clone();
+            let (inst, mut a, mut bport) = boundary_clock(&mut parent);
+            let own = inst.default_ds().clock_identity.0;
+            let mut k = 0;
+            while inst.parent_ds().grandmaster_identity.0 != own {
+                (a, bport) = run_bmca(inst, a, bport);
+                k += 1;
+                assert!(k < 20, "harness: the silent master is never dropped");
+            }
+            k
+        };
+        let mut parent = x0.clone();
+        let (inst, mut a, mut bport) = boundary_clock(&mut parent);
+        for _ in 0..k - 1 {
+            (a, bport) = run_bmca(inst, a, bport);
+        }
+        let own = inst.default_ds().clock_identity.0;
+        let old = view_of_peer(&x0);
+        assert_eq!(view_parent(inst).0, old.0, "harness: still the old parent before the last run");
+        let old_tp = (old.5, old.6);
+        assert_eq!((view_tp(inst).0, view_tp(inst).1), old_tp, "harness: the old master's time properties before the last run");
+        let tb = spawn_big(move || {
+            let _ = run_bmca(inst, a, bport);
+        });
+        let tobs = spawn_big(move || {
+            let p = view_parent(inst);
+            let tp = view_tp(inst);
+            let s = inst.current_ds(None).steps_removed;
+            let mut t = tally.lock().unwrap();
+            let p_new = p.0 == own;
+            let tp_new = (tp.0, tp.1) != old_tp;
+            if p_new && !tp_new {
+                t.violations.insert(format!("data-sets-show-half-of-one-update(regain): parentDS already names the own clock, timePropertiesDS read afterwards is still the old master's {:?}", tp));
+            }
+            if tp_new && s != 0 {
+                t.violations.insert(format!("data-sets-show-half-of-one-update(regain): timePropertiesDS is the local one, currentDS.stepsRemoved read afterwards is still {s}"));
+            }
+            t.outcomes.insert(format!("observer(regain) parent-new {p_new} tp-new {tp_new} steps {s}"));
+        });
+        let tobs2 = spawn_big(move || {
+            let tp = view_tp(inst);
+            let p = view_parent(inst);
+            let mut t = tally.lock().unwrap();
+            let p_new = p.0 == own;
+            let tp_new = (tp.0, tp.1) != old_tp;
+            if tp_new && !p_new {
+                t.violations.insert(format!("data-sets-show-half-of-one-update(regain): timePropertiesDS already local, parentDS read afterwards still names {:?}", p.0));
+            }
+            t.outcomes.insert(format!("observer2(regain) tp-new {tp_new} parent-new {p_new}"));
+        });
+        tb.join().unwrap();
+        tobs.join().unwrap();
+        tobs2.join().unwrap();
+        let p = view_parent(inst);
+        let tp = view_tp(inst);
+        let mut t = tally.lock().unwrap();
+        if p.0 != own || (tp.0, tp.1) == old_tp {
+            t.violations.insert(format!("harness-expectation(regain): after the run parent {:?} time properties {:?}", p.0, tp));
+        }
+        t.iterations += 1;
+      }).join().unwrap();
+    });
+}
+
 fn main() {
     let bound: usize = std::env::args().nth(1).and_then(|s| s.parse().ok()).unwrap_or(2);
     let only: Option<String> = std::env::args().nth(2);
     let mut out = vec![];
-    for (name, f) in [("updates", scenario_updates as fn(usize, &'static StdMutex<Tally>)), ("bmca", scenario_bmca), ("takeover", scenario_takeover)] {
+    for (name, f) in [("updates", scenario_updates as fn(usize, &'static StdMutex<Tally>)), ("bmca", scenario_bmca), ("takeover", scenario_takeover), ("regain", scenario_regain)] {
         if only.as_deref().map(|o| o != name).unwrap_or(false) {
             continue;
         }
